@@ -49,6 +49,8 @@ type context struct {
 type tryFrame struct {
 	// holds an uncaught exception for the 'finally' block
 	exception *Exception
+	// holds the pending result (the value of a 'return' statement) while the 'finally' block is running
+	result Value
 
 	callStackLen, iterLen, refLen uint32
 
@@ -4837,6 +4839,7 @@ func (leaveTry) exec(vm *vm) {
 	tf := &vm.tryStack[len(vm.tryStack)-1]
 	if tf.finallyPos >= 0 {
 		tf.finallyRet = int32(vm.pc + 1)
+		tf.result = vm.result
 		vm.pc = int(tf.finallyPos)
 		tf.finallyPos = -1
 		tf.catchPos = -1
@@ -4860,14 +4863,19 @@ type leaveFinally struct{}
 
 func (leaveFinally) exec(vm *vm) {
 	tf := &vm.tryStack[len(vm.tryStack)-1]
-	ex, ret := tf.exception, tf.finallyRet
+	ex, ret, res := tf.exception, tf.finallyRet, tf.result
 	tf.exception = nil
+	tf.result = nil
 	vm.popTryFrame()
 	if ex != nil {
 		vm.throw(ex)
 		return
 	} else {
 		if ret != -1 {
+			if res != nil {
+				// the 'finally' block may have used the register, e.g. for a 'return' that was cancelled by a 'break'
+				vm.result = res
+			}
 			vm.pc = int(ret)
 		} else {
 			vm.pc++
